@@ -468,7 +468,7 @@ func (api *API) mapDecodeStructFields(
 
 		// an inlined field that carries a field key is nested under that key by the map encoder
 		// (a map is never inlined by the map encoder, see mapEncodeStructFields)
-		if sField.settings.inlined && sField.settings.ts.fieldKey == nil && DeRefPointer(sField.fType).Kind() != reflect.Map {
+		if sField.settings.inlined && sField.settings.ts.fieldKey == nil && deRefPointers(sField.fType).Kind() != reflect.Map {
 			// the map encoder leaves out an inlined struct that is optional and nil (or omitempty and empty) like any
 			// other field: if none of its keys is there, there is nothing to decode
 			if (sField.settings.isOptional || sField.settings.omitEmpty) && !api.hasKeyOfMember(m, sField.fType) {
@@ -665,7 +665,7 @@ func mapDecodeBytes(mapVal any, ts TypeSettings) ([]byte, error) {
 // struct at least one key of its fields (fields of embedded and of inlined structs included) or its type code, for an
 // interface the type code of the implementation. The keys are those that mapEncodeStructFields writes.
 func (api *API) hasKeyOfMember(m map[string]any, memberType reflect.Type, visitedTypes ...reflect.Type) bool {
-	memberType = DeRefPointer(memberType)
+	memberType = deRefPointers(memberType)
 
 	// a struct that inlines itself has no keys beyond those of the first round
 	for _, visitedType := range visitedTypes {
@@ -711,7 +711,7 @@ func (api *API) hasKeyOfMember(m map[string]any, memberType reflect.Type, visite
 	}
 
 	for _, sField := range structFields {
-		fieldType := DeRefPointer(sField.fType)
+		fieldType := deRefPointers(sField.fType)
 
 		switch {
 		case sField.isEmbedded && !sField.settings.inlined:
